@@ -150,6 +150,10 @@ def probe_program(draw):
                                 ("re", ("set", (("r", 0x00, 0x7f),), True), True)]))
     body = [("append", "s0", pat) for _ in range(nread)]
     i = draw(st.integers(0, nread - 1))
+    if term and draw(st.integers(0, 2)) == 0:
+        # the string is emptied again before it is read: s0[0] is then the terminator in every representation (heap buffers kept or released)
+        body.append(draw(st.sampled_from([("delete", "s0"), ("assignstr", "s0", b""), ("delete", "s0")])))
+        i = 0
     idx = ("idx", "s0", ("num", i, "dec"))
     k = ("num", draw(st.sampled_from([0, 1, 100, 127, 128, 200, 255])), "dec")
     use = draw(st.sampled_from(["assign", "assign-expr", "if-hook", "if-assign", "appendc"]))
@@ -179,6 +183,9 @@ def probe_case(draw):
         sets[0] = sets[0] + ["-fstrings-as-u8"]
     if all("-fstrings-as-u8" in s_ for s_ in sets):
         sets[1] = [a for a in sets[1] if a != "-fstrings-as-u8"]
+    if any(st_[0] == "delete" or st_[0] == "assignstr" for st_ in prog.body):
+        # a buffer that is allocated on demand and kept on delete must be among the representations
+        sets[-1] = ["-fallocate-str-space-dynamic-on-demand"] + [a for a in sets[-1] if not a.startswith("-fallocate") and a != "-fdelete-string-free-memory"]
     data = bytes(draw(st.lists(st.sampled_from([0x00, 0x41, 0x61, 0x7a, 0x7f, 0x80, 0x9c, 0xff]), min_size=1, max_size=4))) + b"z"
     return prog, list(prog.argv), sets, [data], "probe"
 
